@@ -206,7 +206,8 @@ func c20(x *mon.Ctx) {
 	cases = append(cases,
 		retryCase{6 * time.Second, 2200 * time.Millisecond, 1, 0, 0, "", ""},
 		retryCase{6 * time.Second, 3 * time.Second, 1, 0, 0, "", ""},
-		retryCase{6 * time.Second, 2500 * time.Millisecond, -1, 0, 0, "", ""})
+		retryCase{6 * time.Second, 2500 * time.Millisecond, -1, 0, 0, "", ""},
+		retryCase{timeout: 14 * time.Second, cap: 4500 * time.Millisecond, failures: 2}) // above the first doubling step: the SECOND wait is the one that must be capped
 	if !x.Quick() {
 		cases = append(cases, retryCase{12 * time.Second, 5 * time.Second, 2, 0, 0, "", ""}, retryCase{40 * time.Second, 9 * time.Second, 3, 0, 0, "", ""}, retryCase{30 * time.Second, 4100 * time.Millisecond, -1, 0, 0, "", ""})
 		cases = append(cases, retryCase{2 * time.Minute, 30 * time.Second, -1, 0, 0, "", ""}, retryCase{2 * time.Minute, 30 * time.Second, 3, 0, 0, "", ""})
